@@ -62,7 +62,7 @@ static ALLOC: counting::Counting = counting::Counting;
 
 // ------------------------------------------------------------------ templates
 
-pub const KINDS: [&str; 16] = [
+pub const KINDS: [&str; 18] = [
     "pairs", "vectors", "strings", "closures", "continuations", "eval", "toplevel", "symbols",
     "bignums", "mixed", "errors", "syntaxerrors", "unbound", "globalrefs",
     // generated code whose LEXICAL variable names are fresh every iteration (handed to eval and dropped)
@@ -70,6 +70,12 @@ pub const KINDS: [&str; 16] = [
     // the pairs loop run through the sliced entry point (prepare_eval + run_count with a budget far below the
     // 8192-instruction collection cadence): slice boundaries must be collection points
     "sliced",
+    // failing evaluations that are SHORT (a handful of instructions) but allocate hundreds of cells in one builtin
+    // call before they fail: every failure must still be a collection point
+    "shorterrors",
+    // call/cc in a loop: the newest continuation is kept, the previous one travels on as a call argument (and
+    // then sits in a dead stack slot): a continuation must retain stack[0..=sp] only
+    "contchain",
 ];
 
 const BIG: &str = "(* 10000000000 10000000000)";
@@ -80,7 +86,7 @@ fn mk_body(kind: &str) -> String {
         "pairs" | "sliced" => "(list j (cons j j))".into(),
         "vectors" => "(make-vector 4 j)".into(),
         "strings" => "(string-append \"live\" (number->string j))".into(),
-        "closures" | "toplevel" | "errors" | "syntaxerrors" | "unbound" | "globalrefs" | "evallex" => "(let ((a j) (b (* j 2))) (lambda (x) (+ x a b)))".into(),
+        "closures" | "toplevel" | "errors" | "syntaxerrors" | "unbound" | "globalrefs" | "evallex" | "shorterrors" | "contchain" => "(let ((a j) (b (* j 2))) (lambda (x) (+ x a b)))".into(),
         "continuations" => "(call/cc (lambda (k) k))".into(),
         "eval" => "(eval (list 'lambda '(x) (list '+ 'x j)))".into(),
         "symbols" => "(string->symbol (string-append \"live\" (number->string j)))".into(),
@@ -147,7 +153,8 @@ fn garbage_body(kind: &str) -> String {
             b = BIG
         ),
         // toplevel / errors: the garbage is made by the top-level forms themselves
-        "toplevel" | "errors" | "syntaxerrors" | "unbound" => "i".into(),
+        "toplevel" | "errors" | "syntaxerrors" | "unbound" | "shorterrors" => "i".into(),
+        "contchain" => "(car (call/cc (lambda (k) (set! stash k) (list i k (vector k)))))".into(),
         // code that mentions a global variable nobody ever defines, compiled by `eval` and dropped unrun
         "globalrefs" => "(procedure? (eval (list 'lambda '() (string->symbol (string-append \"nobody-defines-\" (number->string i))))))".into(),
         _ => panic!("unknown kind {}", kind),
@@ -280,10 +287,11 @@ fn run_template(kind: &str, live: usize, n: usize) -> Result<RunResult, String> 
                     }
                 }
             }
-            "errors" | "syntaxerrors" | "unbound" => {
+            "errors" | "syntaxerrors" | "unbound" | "shorterrors" => {
                 for i in 0..n {
                     let f = match kind.as_str() {
                         "errors" => error_form(i),
+                        "shorterrors" => format!("(vector-ref (list->vector (string->list (make-string 300 #\\a))) {})", 1000 + i),
                         "unbound" => unbound_form(i),
                         _ => syntax_error_form(i),
                     };
@@ -473,7 +481,7 @@ fn obs_held(r10: &Result<RunResult, String>, r1: &Result<RunResult, String>) -> 
 fn cap_for(kind: &str, max_exp: u32) -> u32 {
     // one top-level evaluation costs a parse + compile (and one collection point each): one decade less
     match kind {
-        "toplevel" | "errors" | "syntaxerrors" | "unbound" | "globalrefs" | "eval" | "mixed" | "evallex" => max_exp.saturating_sub(1).max(3),
+        "toplevel" | "errors" | "syntaxerrors" | "unbound" | "globalrefs" | "eval" | "mixed" | "evallex" | "shorterrors" => max_exp.saturating_sub(1).max(3),
         _ => max_exp,
     }
 }
